@@ -9,6 +9,9 @@ import model as M
 
 EXTRA_NAME = "zzUndeclared"
 EXTRA_VALUES = [True, None, [1, {"a": None}], {"type": "x"}, "s"]
+# JSON texts that no typed value renders: numbers outside every numeric type, nesting close to
+# serde_json's depth limit, an escaped astral character
+RAW_VALUES = ["1e999", "-1E+999", "1e-999", "123456789012345678901234567890123", "-0.0e0", "[" * 100 + "]" * 100, '{"a":' * 60 + "null" + "}" * 60, '"\\ud83d\\ude00\\u0000"']
 
 
 def _words(n):
@@ -114,6 +117,14 @@ def run(a, rep, TypesBuild, tref):
                     if vi > 0 and "(last member)" in where and not thorough:
                         continue
                     cases.append((M.dumps(_fill(nd, v)), d, where))
+        # values only a JSON *text* can hold (numbers beyond every Rust type, deep nesting): whatever
+        # JSON value the undeclared member holds, the client skips it
+        raw_marker = "\"@@RAW@@\""
+        for d in [x for x in model.docs(t) if model.valid(t, x)][:1]:
+            for nd, where in injections(model, t, d)[: (6 if thorough else 2)]:
+                base_text = M.dumps(_fill(nd, "@@RAW@@"))
+                for raw in RAW_VALUES:
+                    cases.append((base_text.replace(raw_marker, raw), d, where + " [raw value]"))
         # undeclared members whose names look like declared ones (root object, first position)
         if kind == "object":
             d0 = [x for x in model.docs(t) if model.valid(t, x)][:1]
